@@ -63,6 +63,7 @@ type FuncContract struct {
 	CallSites map[string][]*Clause // callee short name -> assertions evaluated at every call to it
 	Ghosts    []*GhostVar
 	GhostUps  []*GhostUpdate
+	IsClosure bool    // contract of a function literal (key parent$n)
 	IsLemma  bool     // a lemma over spec expressions: parameters are universally quantified, no code
 	PTypes   []string // lemma parameter types (Go syntax)
 	File     string
@@ -122,7 +123,7 @@ var tagRe = regexp.MustCompile(`^\[([A-Za-z0-9_, ]+)(?::([A-Za-z0-9_\-\.]+))?\]\
 var keywords = map[string]bool{
 	"func": true, "props": true, "requires": true, "ensures": true, "modifies": true,
 	"loop": true, "invariant": true, "decreases": true, "inline": true, "trusted": true,
-	"pure": true, "unroll": true, "spec": true, "package": true, "noterm": true, "assert": true, "axiom": true, "lemma": true, "callsite": true, "ghost": true, "onassign": true, "oncall": true, "aftercall": true,
+	"pure": true, "unroll": true, "spec": true, "package": true, "noterm": true, "assert": true, "axiom": true, "lemma": true, "callsite": true, "ghost": true, "onassign": true, "oncall": true, "aftercall": true, "closure": true,
 }
 
 // LoadFile parses a contract file. pkgPath is the default package path
@@ -180,6 +181,17 @@ func (cs *Contracts) LoadFile(path string, pkgPath string, external bool) error 
 		case "package":
 			pkgPath = rest
 			cur, curLoop = nil, nil
+		case "closure":
+			// closure [Recv.]name$n : the n-th function literal of a function; no parameters,
+			// captured variables are visible under their own names
+			name := strings.TrimSpace(rest)
+			fc := &FuncContract{PkgPath: pkgPath, Name: name, Header: l.text, Loops: map[int]*LoopSpec{}, IsClosure: true,
+				Key: pkgPath + "." + name, File: path, Line: l.line}
+			if _, dup := cs.Funcs[fc.Key]; dup {
+				return errf("duplicate contract for %s", fc.Key)
+			}
+			cs.Funcs[fc.Key] = fc
+			cur, curLoop = fc, nil
 		case "func", "lemma":
 			hdr := l.text
 			if w == "lemma" {
